@@ -101,15 +101,19 @@ class StatefulLearner:
     """Deterministic learner whose policy depends on everything it has learned (stable hashing, no PYTHONHASHSEED dependence).
        fmt: 'ap' -> (action, prob) ; 'pmf' -> PMF ; 'kw' -> (action, prob, {'h': ...}) ; 'a' -> bare action
        fail = ('predict'|'learn'|'params', k): raise InjectedFailure at the k-th call (0-based) of that method."""
-    def __init__(self, tag, fmt="ap", fail=None):
+    def __init__(self, tag, fmt="ap", fail=None, uni=False):
         self.info = True                           # every stateful learner writes CobaContext.learning_info in predict
-        if fmt == "info": fmt = "ap"
+        self.armkeys = fmt == "armkeys"            # ... under non-str keys too (per-arm counters keyed by the arm's index)
+        if fmt in ("info", "armkeys"): fmt = "ap"
+        self.uni = bool(uni)
         self.tag, self.fmt, self.fail = tag, fmt, fail
         self.h, self.n_pred, self.n_learn = 0, 0, 0
     @property
     def params(self):
         if self.fail and self.fail[0] == "params": raise InjectedFailure(f"learner-params tag={self.tag}")
-        return {"family": "vf_stateful", "tag": self.tag, "fmt": self.fmt}
+        p = {"family": "vf_stateful", "tag": self.tag, "fmt": self.fmt}
+        if self.uni: p["note"] = UNI_NOTE
+        return p
     def predict(self, context, actions):
         if self.fail and self.fail[0] == "predict" and self.n_pred == self.fail[1]: raise InjectedFailure(f"learner-predict tag={self.tag}")
         self.n_pred += 1
@@ -117,6 +121,9 @@ class StatefulLearner:
             from coba.context import CobaContext
             CobaContext.learning_info[f"info_{self.tag}"] = self.n_pred
         n = len(actions); i = self.h % n
+        if self.armkeys:
+            from coba.context import CobaContext
+            CobaContext.learning_info[i] = self.n_pred
         if self.fmt == "pmf":
             if n == 1: return [1.0]
             return [0.5 if j == i else 0.5 / (n - 1) for j in range(n)]
@@ -127,6 +134,12 @@ class StatefulLearner:
         if self.fail and self.fail[0] == "learn" and self.n_learn == self.fail[1]: raise InjectedFailure(f"learner-learn tag={self.tag}")
         self.n_learn += 1
         self.h = _h(self.h, repr(context), repr(action), round(float(reward), 6), probability, sorted(kw.items()))
+
+class MemoryLearner(StatefulLearner):
+    """a learner that is a container of what it has seen: len() == 0 (falsy) while pristine"""
+    def __len__(self): return self.n_learn
+
+UNI_NOTE = "na\u00efve \u03b5-greedy \u2014 \u5b66\u7fd2 \U0001f600"
 
 class RecEvaluator:
     """Custom evaluator: yields rows that expose the learner's state trajectory, the experiment seed seen inside the
